@@ -13,6 +13,8 @@ import httpcore
 # outcome codes: 0 ok | 1 tcp ConnectError | 2 tcp ConnectTimeout | 3 tcp other
 #                | 4 tls ConnectError | 5 tls ConnectTimeout | 6 tls other
 #                | 7 tcp ReadError | 8 tls WriteError   (documented network errors that are not connect errors)
+#                | 9 tcp OSError | 10 tls OSError | 11 tls TimeoutError | 12 tcp ssl.SSLError
+#                  (what a third-party backend that does not map its errors lets through)
 RETRYABLE = (1, 2, 4, 5)
 
 
@@ -23,10 +25,13 @@ class Other(Exception):
 def _script(code: int) -> typing.Any:
     if code == 0:
         return None
-    stage = "tcp" if code in (1, 2, 3, 7) else "tls"
+    import ssl
+
+    stage = "tcp" if code in (1, 2, 3, 7, 9, 12) else "tls"
     exc = {1: httpcore.ConnectError, 2: httpcore.ConnectTimeout, 3: Other,
            4: httpcore.ConnectError, 5: httpcore.ConnectTimeout, 6: Other,
-           7: httpcore.ReadError, 8: httpcore.WriteError}[code]("scripted")
+           7: httpcore.ReadError, 8: httpcore.WriteError,
+           9: ConnectionResetError, 10: BrokenPipeError, 11: TimeoutError, 12: ssl.SSLError}[code]("scripted")
     return (stage, exc)
 
 
@@ -45,29 +50,37 @@ def _expected(codes: list[int], N: typing.Any) -> tuple[int, int, int]:
     return attempts + 1, used, 0
 
 
+def seen_retry_possible(N: typing.Any) -> bool:
+    """The trace dimension only matters when a retry can happen (forks on N once)."""
+    return bool(N >= 1)
+
+
 @harness(
     "C20", "retries",
     quick=[{"flavour": fl, "uds": u, "len": 3, "_pre": pre}
            for fl in ("sync", "async") for u in (False, True)
-           for pre in ("o0 in (0, 3, 6, 7, 8)", "o0 in (1, 2)", "o0 in (4, 5)")],
-    thorough=[{"flavour": fl, "uds": u, "len": 5, "_pre": f"o0 == {a} and o1 == {b}"}
+           for pre in ("o0 in (0, 3, 6, 7, 8, 9, 10, 11, 12)", "o0 == 1", "o0 == 2", "o0 == 4", "o0 == 5")],
+    thorough=[{"flavour": fl, "uds": u, "len": 4, "_pre": f"o0 == {a} and o1 == {b}"}
               for fl in ("sync", "async") for u in (False, True) for a in RETRYABLE for b in RETRYABLE]
-    + [{"flavour": fl, "uds": u, "len": 5, "_pre": f"o0 == {a} and o1 in (0, 3, 6, 7, 8)"}
+    + [{"flavour": fl, "uds": u, "len": 4, "_pre": f"o0 == {a} and o1 in (0, 3, 6, 7, 8, 9, 10, 11, 12)"}
        for fl in ("sync", "async") for u in (False, True) for a in RETRYABLE]
-    + [{"flavour": fl, "uds": u, "len": 5, "_pre": "o0 in (0, 3, 6, 7, 8)"}
+    + [{"flavour": fl, "uds": u, "len": 4, "_pre": "o0 in (0, 3, 6, 7, 8, 9, 10, 11, 12)"}
+       for fl in ("sync", "async") for u in (False, True)]
+    # long chains of retryable failures (six scripted attempts), two kinds per position
+    + [{"flavour": fl, "uds": u, "len": 6, "_pre": "o0 in (1, 5) and o1 in (2, 4) and o2 in (1, 5) and o3 in (2, 4) and o4 in (1, 5) and o5 in (0, 2, 10)"}
        for fl in ("sync", "async") for u in (False, True)],
-    example=dict(N=2, o0=1, o1=5, o2=0, o3=0, o4=0, o5=0, late=True),
-    require=("all-attempts-fail", "success-after-retry", "non-retryable", "late-failure", "retries-exhausted"),
-    timeout={"quick": 240, "thorough": 1200},
-    symbolic="retries N (unbounded integer >= 0); outcome of each successive connection attempt (9 kinds: success, ConnectError, ConnectTimeout, a foreign exception, ReadError/WriteError; TCP/UDS or TLS stage); whether the exchange fails after establishment",
-    bounds="up to 3 (quick) / 5 (thorough) scripted attempts followed by a succeeding one, https origin over TCP and over a Unix socket, sync and async HTTPConnection via the pool",
+    example=dict(N=2, o0=1, o1=5, o2=0, o3=0, o4=0, o5=0, late=True, tr=True),
+    require=("all-attempts-fail", "success-after-retry", "non-retryable", "late-failure", "retries-exhausted", "traced"),
+    timeout={"quick": 400, "thorough": 1500},
+    symbolic="retries N (unbounded integer >= 0); outcome of each successive connection attempt (13 kinds: success, ConnectError, ConnectTimeout, a foreign exception, ReadError/WriteError, raw OSError/TimeoutError/ssl.SSLError subclasses; TCP/UDS or TLS stage); whether the exchange fails after establishment; whether the request carries a `trace` extension",
+    bounds="up to 3 (quick) / 4 (thorough; 6 for chains of connect errors/timeouts) scripted attempts followed by a succeeding one, https origin over TCP and over a Unix socket, sync and async HTTPConnection via the pool",
     outside="proxied connections (the property is about direct connections); more than 6 attempts",
     stubs=("simulated backend: connect_tcp/connect_unix_socket/start_tls fail as scripted; sleep() only records its argument",),
 )
-def retries(N: int, o0: int, o1: int, o2: int, o3: int, o4: int, o5: int, late: bool) -> None:
+def retries(N: int, o0: int, o1: int, o2: int, o3: int, o4: int, o5: int, late: bool, tr: bool) -> None:
     """
     pre: N >= 0
-    pre: 0 <= o0 <= 8 and 0 <= o1 <= 8 and 0 <= o2 <= 8 and 0 <= o3 <= 8 and 0 <= o4 <= 8 and 0 <= o5 <= 8
+    pre: 0 <= o0 <= 12 and 0 <= o1 <= 12 and 0 <= o2 <= 12 and 0 <= o3 <= 12 and 0 <= o4 <= 12 and 0 <= o5 <= 12
     post: _
     """
     is_async = shard("flavour", "sync") == "async"
@@ -78,7 +91,7 @@ def retries(N: int, o0: int, o1: int, o2: int, o3: int, o4: int, o5: int, late: 
 
     def lazy(i: int) -> typing.Callable[[], typing.Any]:
         def get() -> typing.Any:
-            c = ladder(sym[i], 0, 8)
+            c = ladder(sym[i], 0, 12)
             seen.append(c)
             if c == 0 and late:  # only now does `late` matter: fork here
                 flag["late"] = True
@@ -101,7 +114,22 @@ def retries(N: int, o0: int, o1: int, o2: int, o3: int, o4: int, o5: int, late: 
         kw["uds"] = "/run/sim.sock"
     pool = scen.make_pool(is_async, net, **kw)
     api = scen.Api(is_async)
-    o = api.request(pool, "GET", "https://example.com/x")
+    ext: dict[str, typing.Any] = {}
+    traced: list[str] = []
+    if seen_retry_possible(N) and tr:
+        # the documented `trace` extension: must observe, never change, what happens
+        if is_async:
+            async def atrace(name: str, info: typing.Any) -> None:
+                traced.append(name)
+
+            ext["trace"] = atrace
+        else:
+            def strace(name: str, info: typing.Any) -> None:
+                traced.append(name)
+
+            ext["trace"] = strace
+        P.cover("traced")
+    o = api.request(pool, "GET", "https://example.com/x", extensions=ext)
 
     attempts, used, final = _expected(seen, N)
     connects = net.events("connect_tcp", "connect_unix_socket")
@@ -116,6 +144,9 @@ def retries(N: int, o0: int, o1: int, o2: int, o3: int, o4: int, o5: int, late: 
     # pauses 0, 0.5, 1, 2, 4 ... one per retry
     exp_sleeps = [0, 0.5, 1.0, 2.0, 4.0, 8.0][:used]
     P.check(sleeps == exp_sleeps, "backoff-sequence", lambda: f"sleeps:{sleeps}!={exp_sleeps}")
+    if ext:
+        n_retry = len([t for t in traced if t == "connection.retry.started"])
+        P.check(n_retry == used, "one-retry-trace-event-per-pause", lambda: f"retry-events:{n_retry}!={used}")
     if final == 0:
         P.cover("success-after-retry" if used else "success-first-try")
         if flag["late"]:
@@ -130,7 +161,10 @@ def retries(N: int, o0: int, o1: int, o2: int, o3: int, o4: int, o5: int, late: 
             P.cover("retries-exhausted")
         want = httpcore.ConnectError if final in (1, 4) else httpcore.ConnectTimeout
         P.check(type(o.exc) is want, "last-error-raised", lambda: f"last-error:{o.kind()}!={want.__name__}")
-    elif final in (3, 6, 7, 8):
+    else:
+        import ssl
+
         P.cover("non-retryable")
-        want_t = {3: Other, 6: Other, 7: httpcore.ReadError, 8: httpcore.WriteError}[final]
+        want_t = {3: Other, 6: Other, 7: httpcore.ReadError, 8: httpcore.WriteError,
+                  9: ConnectionResetError, 10: BrokenPipeError, 11: TimeoutError, 12: ssl.SSLError}[final]
         P.check(type(o.exc) is want_t, "non-retryable-raised-as-is", lambda: f"nonretry:{o.kind()}")
